@@ -142,8 +142,8 @@ CONF = {
   "rule": "(seq) explicit-state BFS over announce / re-announce / withdraw histories (3 services x 3 addresses x 3 interface scopes) on the real Announce: use counts, responder decisions for every address x interface and gratuitous emissions on two in-memory ARP responders checked after every operation; (pkt) every ARP operation code 0..10 x Ethernet destination x target (held+covered, held+uncovered, not held) x malformed frames through the real processRequest; (conc) every interleaving with <=2/3 preemptions of a writer thread, a request thread and the spam-loop effect over 6 scenarios under the controlled scheduler, single-writer linearizability oracle; plus a free-running -race pass of the same bodies",
   "parts": [{"name": "main", "pkg": "internal/layer2", "test": "TestVerif_C13", "shards": {"quick": 16, "thorough": 16}, "budget_s": {"quick": 100, "thorough": 1500}, "gomaxprocs": 1},
             {"name": "race", "pkg": "internal/layer2", "test": "TestVerif_C13race", "shards": 1, "race": True, "rewrites": {"go": ["internal/layer2/announcer.go"]}},
-            {"name": "ndp-groups", "pkg": "internal/layer2", "test": "TestVerif_C13ndp", "shards": 1, "rewrites": {"go": ["internal/layer2/announcer.go"]}},
-            {"name": "spam-loop", "pkg": "internal/layer2", "test": "TestVerif_C13spam", "shards": 1, "gomaxprocs": 8, "rewrites": {"go": ["internal/layer2/announcer.go"]}}],
+            {"name": "ndp-groups", "pkg": "internal/layer2", "test": "TestVerif_C13ndp", "shards": 1, "free": True, "rewrites": {"go": ["internal/layer2/announcer.go"]}},
+            {"name": "spam-loop", "pkg": "internal/layer2", "test": "TestVerif_C13spam", "shards": 1, "free": True, "gomaxprocs": 8, "rewrites": {"go": ["internal/layer2/announcer.go"]}}],
   "rewrites": {"sync": ["internal/layer2/announcer.go"], "go": ["internal/layer2/announcer.go"], "map": ["internal/layer2/announcer.go"], "chan": ["internal/layer2/announcer.go"]},
   "assumptions": ["the NDP packet path is not covered; the NDP decision is the same shouldAnnounce and is covered for the IPv6 address; solicited-node multicast membership is covered by the ndp-groups part where an ICMPv6 listener can be opened on a local interface (the part reports when it had to be skipped)",
                   "background interface scan and spam loop suppressed; the spam loop's effect (gratuitous of a queued advertisement) is delivered by the harness",
